@@ -190,6 +190,7 @@ FIXED = [
     ("C17", "1be946b", "`[1,2,3].reduce(f, undefined)` started from the first element and `[].reduce(f, undefined)` threw; forEach/map/filter/find/findIndex/some/every ignored thisArg and returned quietly for a missing or non-callable callback (found by the author of seed C17-h)"),
     ("C07", "e46fd48", "`-{valueOf:function(){throw 7}}` threw nothing and `[5] - 0`, `[6] / [2]`, `-[5]` were NaN: -, /, %, ** and unary +/- applied the plain number conversion, so valueOf/toString of an object operand never ran (and / and % converted the right operand first) (found by the author of seed C18-g)"),
     ("C08", "1cb9be0", "`[1].map(f) instanceof Array`, `\"a,b\".split(\",\") instanceof Array` and `JSON.parse(\"[1]\") instanceof Array` were false and `Array.prototype` read as undefined: arrays built by natives and by the converters had no prototype link (found by the author of seed C17-h)"),
+    ("C08", "37f567b", "`(function(){}) instanceof Function` and `instanceof Object` were false and `Object.getPrototypeOf(function(){})` was null: functions, kept in a class of their own, were treated as non-objects by instanceof and getPrototypeOf"),
     ("C08", "25d6360", "`function F(){}; new F() instanceof Object` was false and `Object.getPrototypeOf(F.prototype) === Object.prototype` too: the prototype object of a function had no prototype of its own (found by the author of seed C08-h)"),
     ("C17", "4e4ea31", "`new Uint8Array(new Uint8Array([1,2,3])).length` was 0: the typed array constructor had no branch for a typed array argument (found by the author of seed C17-h)"),
     ("C07", "fd57c28", "`if (c) throw new Error(\"a\"); throw new Error(\"b\")` on two lines stamped the first error with the line of the second statement: the source location was looked up from the already advanced instruction pointer (found by the author of seed C07-i)"),
